@@ -385,6 +385,45 @@ def part_inconsistent(ctx, shard):
                     ctx.violation(f"C10|construct|slot={slot}|mode=rejected-system-replaced-the-holder-of-its-name", case, before, after)
 
 
+REDEF_BASES = [("cm", "g", "s"), ("m", "kg", "s"), ("km", "Msun", "yr"), ("mm", "mg", "ms")]
+REDEF_UNITS = ["T", "mT", "V", "ohm", "C", "A", "G", "statA", "J", "km/s", "N", "Pa", "g/cm**3", "W/m**2"]
+
+
+def part_redefine(ctx, shard):
+    """a user system created again under the SAME name with other base units: every conversion by that name follows the new
+    definition at once (the name is looked up, nothing about the old object may linger in a cache)"""
+    for first, second in shard:
+        world.reset_world()
+        for u in REDEF_UNITS:
+            UnitSystem("redef", *first)
+            x = unyt_array(np.array([1.5, 4.0]), u)
+            try:
+                x.in_base("redef")  # use the first definition (warms whatever is keyed by the system)
+                x.units.get_base_equivalent("redef")
+            except Exception:  # noqa: BLE001
+                pass
+            UnitSystem("redef", *second)
+            UnitSystem("redef_ref", *second)
+            for route, f in (("in_base", lambda n: x.in_base(n)), ("convert_to_base", lambda n: (lambda y: (y.convert_to_base(n), y)[1])(x.copy())), ("get_base_equivalent", lambda n: x.units.get_base_equivalent(n))):
+                ctx.count("evaluations")
+                try:
+                    got = f("redef")
+                    g = ("ok", str(got if route == "get_base_equivalent" else got.units), None if route == "get_base_equivalent" else np.asarray(got.d, dtype=float).tolist())
+                except Exception as e:  # noqa: BLE001
+                    g = ("raise", type(e).__name__, None)
+                try:
+                    ref = f("redef_ref")
+                    r = ("ok", str(ref if route == "get_base_equivalent" else ref.units), None if route == "get_base_equivalent" else np.asarray(ref.d, dtype=float).tolist())
+                except Exception as e:  # noqa: BLE001
+                    r = ("raise", type(e).__name__, None)
+                ctx.decided(("redefine", first, second, u, route))
+                ctx.outcome(("redefine", route, g[0], r[0]))
+                if g != r:
+                    kind = "em-atom" if u in ("T", "mT", "V", "ohm", "C", "A", "G", "statA") else "plain"
+                    ctx.violation(f"C10|redefine|route={route}|unit={kind}|mode=answers-from-the-replaced-definition", {"part": "redefine", "first": list(first), "second": list(second), "unit": u, "route": route}, r, g)
+    world.reset_world()
+
+
 # ---- explicit-state part ---------------------------------------------------------------------------------------------
 PROBES = ["J", "erg", "N", "km/s", "Pa", "W/m**2", "g/cm**3", "m**2", "keV", "1/s", "K", "mile/hr"]
 EVENTS = (
@@ -497,6 +536,7 @@ ALL_SYSTEMS = BUILTIN + ["gen_prefixed", "gen_quantity", "gen_angles", "gen_nocu
 def run(ctx):
     harness.pmap(ctx, part_product, [[s] for s in ALL_SYSTEMS])
     harness.pmap(ctx, part_inconsistent, [[0]], nproc=1)
+    harness.pmap(ctx, part_redefine, [[(a, b)] for a in REDEF_BASES for b in REDEF_BASES if a != b])
     depth, dev = (3, 2) if ctx.tier == "quick" else (4, 3)
     stats = {}
     for which in ("user", "galactic", "cgs"):
@@ -541,6 +581,8 @@ def replay(case):
         check_conversion(ctx, S, case["system"], case["unit"], reg, case, tag)
     elif p == "inconsistent":
         part_inconsistent(ctx, [0])
+    elif p == "redefine":
+        part_redefine(ctx, [(tuple(case["first"]), tuple(case["second"]))])
     else:
         sysm = System(case["which"])
         hist = tuple(tuple(e) for e in case["history"])
